@@ -67,9 +67,9 @@ theorem writeVars_of_match (st : List Bool) (vars : List Nat) (vals : List Bool)
             rcases Nat.lt_or_ge i st.length with hlt | hge
             · exact hlt
             · rw [List.getElem?_eq_none hge] at hv; cases hv
-          simp [List.getElem?_set, this]
+          simp [this]
         · have : v ≠ i := fun e => hi e.symm
-          simp [List.getElem?_set, this]
+          simp [this]
       rw [hset]
       exact ih st xs h.2
 
@@ -253,5 +253,471 @@ theorem statesVisited_eq (st : List Bool) (s : Slots) :
     | some o =>
       simp only [statesVisited, foldStates, List.cons_append, rollEnd_cons, stepState]
       rw [ih]
+
+/-! ### Legal: decider -/
+
+theorem legalSlotsB_iff (H : Ham) (s : Slots) :
+    legalSlotsB H s = true ↔ ∀ o, some o ∈ s → o.LegalFor H := by
+  unfold legalSlotsB
+  rw [List.all_eq_true]
+  constructor
+  · intro h o ho
+    have := h (some o) ho
+    simpa using this
+  · intro h x hx
+    cases x with
+    | none => rfl
+    | some o => simpa using h o hx
+
+theorem legalB_iff (H : Ham) (c : Config) : legalB H c = true ↔ Legal H c :=
+  legalSlotsB_iff H c.slots
+
+theorem hamWFB_sound (H : Ham) (n : Nat) (h : hamWFB H n = true) : HamWF H n := by
+  intro b hb
+  unfold hamWFB at h
+  rw [List.all_eq_true] at h
+  have := h b (List.mem_range.mpr hb)
+  rw [Bool.and_eq_true] at this
+  refine ⟨by simpa using this.1, ?_⟩
+  intro v hv
+  have h2 := this.2
+  rw [List.all_eq_true] at h2
+  simpa using h2 v hv
+
+theorem Legal.cons_iff (H : Ham) (st : List Bool) (x : Option Op) (t : Slots) :
+    Legal H ⟨st, x :: t⟩ ↔ (∀ o, x = some o → o.LegalFor H) ∧ Legal H ⟨st, t⟩ := by
+  unfold Legal
+  simp only [List.mem_cons]
+  constructor
+  · intro h
+    exact ⟨fun o ho => h o (Or.inl ho.symm), fun o ho => h o (Or.inr ho)⟩
+  · rintro ⟨h1, h2⟩ o (ho | ho)
+    · exact h1 o ho.symm
+    · exact h2 o ho
+
+/-! ### Diagonal sweep -/
+
+theorem diagSlotsB_sound (H : Ham) (st : List Bool) (b a : Slots) (fin : List Bool)
+    (h : diagSlotsB H st b a = some fin) : DiagSlots H st b a fin := by
+  induction b generalizing st a with
+  | nil =>
+    cases a with
+    | nil => simp [diagSlotsB] at h; subst h; exact DiagSlots.nil st
+    | cons y a => simp [diagSlotsB] at h
+  | cons x b ih =>
+    cases a with
+    | nil => cases x <;> simp [diagSlotsB] at h
+    | cons y a =>
+      cases x with
+      | none =>
+        cases y with
+        | none => exact DiagSlots.skip (ih st a (by simpa [diagSlotsB] using h))
+        | some o =>
+          simp only [diagSlotsB] at h
+          split at h
+          · rename_i hc
+            obtain ⟨h1, h2, h3⟩ := hc
+            rw [h2]
+            exact DiagSlots.insert o.bond h1 h3 (ih st a h)
+          · cases h
+      | some o =>
+        cases y with
+        | none =>
+          simp only [diagSlotsB] at h
+          split at h
+          · rename_i hc; exact DiagSlots.remove o hc (ih st a h)
+          · cases h
+        | some o' =>
+          simp only [diagSlotsB] at h
+          split at h
+          · rename_i he
+            subst he
+            split at h
+            · rename_i hc; exact DiagSlots.keep o' hc (ih st a h)
+            · rename_i hc
+              exact DiagSlots.offdiag o' (by simpa using hc) (ih _ a h)
+          · cases h
+
+theorem diagSweepB_sound (H : Ham) (L : Nat) (b a : Config) (h : diagSweepB H L b a = true) :
+    DiagSweepStep H L b a := by
+  unfold diagSweepB at h
+  rw [Bool.and_eq_true] at h
+  exact ⟨diagSlotsB_sound H _ _ _ _ (by simpa using h.1), by simpa using h.2⟩
+
+theorem insertedOp_legal (H : Ham) (n : Nat) (hH : HamWF H n) (st : List Bool) (bd : Nat)
+    (hb : bd < H.nbonds)
+    (hw : 0 < H.w bd (readVars st (H.vars bd)) (readVars st (H.vars bd))) :
+    (insertedOp H st bd).LegalFor H := by
+  refine ⟨hb, rfl, rfl, ?_, ?_, hw⟩
+  · simp [insertedOp, Op.diagonal]
+  · refine ⟨?_, ?_, (hH bd hb).1, fun _ => rfl⟩ <;> simp [insertedOp, Op.diagonal, readVars_length]
+
+theorem insertedOp_match (H : Ham) (n : Nat) (hH : HamWF H n) (st : List Bool) (hn : st.length = n)
+    (bd : Nat) (hb : bd < H.nbonds) : inputsMatch st (insertedOp H st bd) = true := by
+  rw [inputsMatch_eq]
+  exact matchL_readVars st (H.vars bd) (fun v hv => by rw [hn]; exact (hH bd hb).2 v hv)
+
+theorem insertedOp_write (H : Ham) (n : Nat) (hH : HamWF H n) (st : List Bool) (hn : st.length = n)
+    (bd : Nat) (hb : bd < H.nbonds) :
+    writeVars st (insertedOp H st bd).vars (insertedOp H st bd).outs = st :=
+  writeVars_of_match st _ _ (matchL_readVars st (H.vars bd) (fun v hv => by rw [hn]; exact (hH bd hb).2 v hv))
+
+/-- a diagonal-tagged well-formed op that meets its inputs leaves the rolling state alone -/
+theorem diag_transparent {st : List Bool} {o : Op} (hwf : o.WF) (ht : o.tagDiag = true)
+    (hm : inputsMatch st o = true) : writeVars st o.vars o.outs = st := by
+  rw [hwf.2.2.2 ht]
+  exact writeVars_of_match st _ _ hm
+
+/-- the sweep keeps propagation: same end state, and the rolling state the sweep hands back is
+that end state -/
+theorem diagSlots_propagate (H : Ham) (n : Nat) (hH : HamWF H n) {st : List Bool} {b a : Slots}
+    {fin r : List Bool} (h : DiagSlots H st b a fin) (hn : st.length = n)
+    (hwf : ∀ o, some o ∈ b → o.WF) (hp : propagate st b = some r) :
+    propagate st a = some r ∧ fin = r := by
+  induction h generalizing r with
+  | nil st => simp [propagate] at hp; exact ⟨by simp [propagate, hp], hp⟩
+  | skip _ ih =>
+    have := ih hn (fun o ho => hwf o (List.mem_cons_of_mem _ ho)) (by simpa [propagate] using hp)
+    exact ⟨by simpa [propagate] using this.1, this.2⟩
+  | @insert st b a fin bd hb hw _ ih =>
+    have := ih hn (fun o ho => hwf o (List.mem_cons_of_mem _ ho)) (by simpa [propagate] using hp)
+    refine ⟨?_, this.2⟩
+    rw [propagate_some_of (insertedOp_match H n hH st hn bd hb), insertedOp_write H n hH st hn bd hb]
+    exact this.1
+  | @keep st b a fin o ht _ ih =>
+    obtain ⟨hm, h2⟩ := propagate_some_eq hp
+    have hw := hwf o (List.mem_cons_self ..)
+    rw [diag_transparent hw ht hm] at h2
+    have := ih hn (fun o ho => hwf o (List.mem_cons_of_mem _ ho)) h2
+    refine ⟨?_, this.2⟩
+    rw [propagate_some_of hm, diag_transparent hw ht hm]
+    exact this.1
+  | @remove st b a fin o ht _ ih =>
+    obtain ⟨hm, h2⟩ := propagate_some_eq hp
+    have hw := hwf o (List.mem_cons_self ..)
+    rw [diag_transparent hw ht hm] at h2
+    have := ih hn (fun o ho => hwf o (List.mem_cons_of_mem _ ho)) h2
+    exact ⟨by simpa [propagate] using this.1, this.2⟩
+  | @offdiag st b a fin o ht _ ih =>
+    obtain ⟨hm, h2⟩ := propagate_some_eq hp
+    have := ih (by rw [writeVars_length]; exact hn) (fun o ho => hwf o (List.mem_cons_of_mem _ ho)) h2
+    refine ⟨?_, this.2⟩
+    rw [propagate_some_of hm]
+    exact this.1
+
+theorem diagSlots_legal (H : Ham) (n : Nat) (hH : HamWF H n) {st : List Bool} {b a : Slots}
+    {fin : List Bool} (h : DiagSlots H st b a fin)
+    (hl : ∀ o, some o ∈ b → o.LegalFor H) : ∀ o, some o ∈ a → o.LegalFor H := by
+  induction h with
+  | nil st => intro o ho; simp at ho
+  | skip _ ih =>
+    intro o ho
+    simp only [List.mem_cons] at ho
+    rcases ho with ho | ho
+    · cases ho
+    · exact ih (fun o ho => hl o (List.mem_cons_of_mem _ ho)) o ho
+  | @insert st b a fin bd hb hw _ ih =>
+    intro o ho
+    simp only [List.mem_cons] at ho
+    rcases ho with ho | ho
+    · cases ho; exact insertedOp_legal H n hH st bd hb hw
+    · exact ih (fun o ho => hl o (List.mem_cons_of_mem _ ho)) o ho
+  | @keep st b a fin o' ht _ ih =>
+    intro o ho
+    simp only [List.mem_cons] at ho
+    rcases ho with ho | ho
+    · cases ho; exact hl _ (List.mem_cons_self ..)
+    · exact ih (fun o ho => hl o (List.mem_cons_of_mem _ ho)) o ho
+  | @remove st b a fin o' ht _ ih =>
+    intro o ho
+    simp only [List.mem_cons] at ho
+    rcases ho with ho | ho
+    · cases ho
+    · exact ih (fun o ho => hl o (List.mem_cons_of_mem _ ho)) o ho
+  | @offdiag st b a fin o' ht _ ih =>
+    intro o ho
+    simp only [List.mem_cons] at ho
+    rcases ho with ho | ho
+    · cases ho; exact hl _ (List.mem_cons_self ..)
+    · exact ih (fun o ho => hl o (List.mem_cons_of_mem _ ho)) o ho
+
+/-- off-diagonal operators are never touched, positions are kept, and the string only grows -/
+theorem diagSlots_length {H : Ham} {st : List Bool} {b a : Slots} {fin : List Bool}
+    (h : DiagSlots H st b a fin) : a.length = b.length := by
+  induction h <;> simp_all
+
+theorem diagSlots_offdiag {H : Ham} {st : List Bool} {b a : Slots} {fin : List Bool}
+    (h : DiagSlots H st b a fin) (p : Nat) (o : Op) (ho : o.tagDiag = false) :
+    b[p]? = some (some o) ↔ a[p]? = some (some o) := by
+  induction h generalizing p with
+  | nil st => simp
+  | skip _ ih => cases p with
+    | zero => simp
+    | succ p => simpa using ih p
+  | @insert st b a fin bd hb hw _ ih => cases p with
+    | zero =>
+      simp only [List.getElem?_cons_zero, Option.some.injEq]
+      constructor
+      · intro h; cases h
+      · intro h; rw [← h] at ho; simp [insertedOp, Op.diagonal] at ho
+    | succ p => simpa using ih p
+  | @keep st b a fin o' ht _ ih => cases p with
+    | zero => simp
+    | succ p => simpa using ih p
+  | @remove st b a fin o' ht _ ih => cases p with
+    | zero =>
+      simp only [List.getElem?_cons_zero, Option.some.injEq]
+      constructor
+      · intro h; rw [h] at ht; rw [ht] at ho; cases ho
+      · intro h; cases h
+    | succ p => simpa using ih p
+  | @offdiag st b a fin o' ht _ ih => cases p with
+    | zero => simp
+    | succ p => simpa using ih p
+
+theorem padTo_take_of_le (s : Slots) (L : Nat) (h : s.length ≤ L) :
+    (padTo s L).take L = padTo s L ∧ (padTo s L).drop L = [] := by
+  have hl : (padTo s L).length = L := by simp [padTo]; omega
+  exact ⟨List.take_of_length_le (by omega), List.drop_of_length_le (by omega)⟩
+
+/-- Preservation by one diagonal sweep that covers the whole string (`length ≤ L`). -/
+theorem diagSweep_pres_aux (H : Ham) (n L : Nat) (hH : HamWF H n) (b a : Config)
+    (hn : b.state.length = n) (hL : b.slots.length ≤ L) (hc : Consistent b) (hl : Legal H b)
+    (h : DiagSweepStep H L b a) : Consistent a ∧ Legal H a ∧ a.state = b.state := by
+  obtain ⟨h1, h2⟩ := h
+  obtain ⟨ht, hd⟩ := padTo_take_of_le b.slots L hL
+  rw [ht] at h1
+  rw [hd] at h2
+  have ha : a.slots = a.slots.take L := by
+    have := List.take_append_drop L a.slots
+    rw [h2, List.append_nil] at this
+    exact this.symm
+  have hwf : ∀ o, some o ∈ padTo b.slots L → o.WF := by
+    intro o ho
+    simp only [padTo, List.mem_append, List.mem_replicate] at ho
+    rcases ho with ho | ho
+    · exact (hl o ho).2.2.2.2.1
+    · cases ho.2
+  have hp : propagate b.state (padTo b.slots L) = some b.state := by
+    unfold padTo; rw [propagate_append_none]; exact hc
+  obtain ⟨h3, h4⟩ := diagSlots_propagate H n hH h1 hn hwf hp
+  refine ⟨?_, ?_, h4⟩
+  · unfold Consistent; rw [ha, h4]; exact h3
+  · intro o ho
+    rw [ha] at ho
+    refine diagSlots_legal H n hH h1 ?_ o ho
+    intro o ho
+    simp only [padTo, List.mem_append, List.mem_replicate] at ho
+    rcases ho with ho | ho
+    · exact hl o ho
+    · cases ho.2
+
+/-! ### xor lemma: link-closed flips keep consistency -/
+
+theorem xorBits_length (a b : List Bool) : (xorBits a b).length = min a.length b.length := by
+  simp [xorBits]
+
+theorem xorBits_getElem? (a b : List Bool) (i : Nat) (x y : Bool) (ha : a[i]? = some x)
+    (hb : b[i]? = some y) : (xorBits a b)[i]? = some (xor x y) := by
+  simp [xorBits, List.getElem?_zipWith, ha, hb]
+
+theorem xorBits_set (a b : List Bool) (i : Nat) (x y : Bool) :
+    xorBits (a.set i x) (b.set i y) = (xorBits a b).set i (xor x y) := by
+  apply List.ext_getElem?
+  intro j
+  simp only [xorBits, List.getElem?_zipWith, List.getElem?_set]
+  by_cases hij : i = j
+  · subst hij
+    by_cases h1 : i < a.length <;> by_cases h2 : i < b.length <;>
+      simp [h1, h2, List.length_zipWith] <;> omega
+  · simp [hij]
+
+theorem xorBits_cancel (a b : List Bool) (h : b.length = a.length) : xorBits a (xorBits a b) = b := by
+  induction a generalizing b with
+  | nil => cases b with
+    | nil => rfl
+    | cons y b => simp at h
+  | cons x a ih =>
+    cases b with
+    | nil => simp at h
+    | cons y b =>
+      simp only [xorBits, List.zipWith_cons_cons, List.cons.injEq]
+      refine ⟨by cases x <;> cases y <;> rfl, ?_⟩
+      exact ih b (by simpa using h)
+
+theorem matchL_xor (s t : List Bool) (vars : List Nat) (x y : List Bool)
+    (hx : matchL s vars x = true) (hy : matchL t vars y = true) :
+    matchL (xorBits s t) vars (xorBits x y) = true := by
+  induction vars generalizing x y with
+  | nil => simp [matchL]
+  | cons v vs ih =>
+    cases x with
+    | nil => simp [xorBits, matchL]
+    | cons a x =>
+      cases y with
+      | nil => simp [xorBits, matchL]
+      | cons c y =>
+        rw [matchL_cons, Bool.and_eq_true] at hx hy
+        have : xorBits (a :: x) (c :: y) = xor a c :: xorBits x y := by simp [xorBits]
+        rw [this, matchL_cons, Bool.and_eq_true]
+        refine ⟨?_, ih x y hx.2 hy.2⟩
+        have h1 : s[v]? = some a := by simpa using hx.1
+        have h2 : t[v]? = some c := by simpa using hy.1
+        simp [xorBits_getElem? s t v a c h1 h2]
+
+theorem writeVars_xor (s t : List Bool) (vars : List Nat) (x y : List Bool) (h : x.length = y.length) :
+    writeVars (xorBits s t) vars (xorBits x y) = xorBits (writeVars s vars x) (writeVars t vars y) := by
+  induction vars generalizing s t x y with
+  | nil => simp [writeVars]
+  | cons v vs ih =>
+    cases x with
+    | nil =>
+      cases y with
+      | nil => simp [writeVars, xorBits]
+      | cons c y => simp at h
+    | cons a x =>
+      cases y with
+      | nil => simp at h
+      | cons c y =>
+        have : xorBits (a :: x) (c :: y) = xor a c :: xorBits x y := by simp [xorBits]
+        rw [this, writeVars_cons, writeVars_cons, writeVars_cons, ← xorBits_set]
+        exact ih _ _ x y (by simpa using h)
+
+/-- pointwise: `a = b xor m` on a common skeleton -/
+inductive XorRel : Slots → Slots → Slots → Prop
+  | nil : XorRel [] [] []
+  | none {b m a} : XorRel b m a → XorRel (none :: b) (none :: m) (none :: a)
+  | some {b m a} (ob om oa : Op) : om.vars = ob.vars → oa.vars = ob.vars →
+      oa.ins = xorBits ob.ins om.ins → oa.outs = xorBits ob.outs om.outs →
+      ob.outs.length = om.outs.length → XorRel b m a →
+      XorRel (some ob :: b) (some om :: m) (some oa :: a)
+
+/-- **Propagation commutes with xor**: if `b` propagates `s` to `r` and the mask `m` propagates
+the mask state `t` to `u`, then `b xor m` propagates `s xor t` to `r xor u`. -/
+theorem propagate_xor {b m a : Slots} (h : XorRel b m a) {s t r u : List Bool}
+    (hb : propagate s b = some r) (hm : propagate t m = some u) :
+    propagate (xorBits s t) a = some (xorBits r u) := by
+  induction h generalizing s t with
+  | nil => simp [propagate] at hb hm ⊢; rw [hb, hm]
+  | none _ ih => exact ih (by simpa [propagate] using hb) (by simpa [propagate] using hm)
+  | some ob om oa hv1 hv2 hi ho hlen _ ih =>
+    obtain ⟨hmb, hb2⟩ := propagate_some_eq hb
+    obtain ⟨hmm, hm2⟩ := propagate_some_eq hm
+    have hma : inputsMatch (xorBits s t) oa = true := by
+      rw [inputsMatch_eq, hv2, hi]
+      rw [inputsMatch_eq] at hmb hmm
+      rw [hv1] at hmm
+      exact matchL_xor s t ob.vars ob.ins om.ins hmb hmm
+    rw [propagate_some_of hma, hv2, ho, writeVars_xor _ _ _ _ _ hlen]
+    rw [hv1] at hm2
+    exact ih hb2 hm2
+
+theorem sameSkeletonB_sound (b a : Slots) (h : sameSkeletonB b a = true) : SameSkeleton b a := by
+  induction b generalizing a with
+  | nil => cases a with
+    | nil => exact SameSkeleton.nil
+    | cons y a => simp [sameSkeletonB] at h
+  | cons x b ih =>
+    cases a with
+    | nil => cases x <;> simp [sameSkeletonB] at h
+    | cons y a =>
+      cases x with
+      | none => cases y with
+        | none => exact SameSkeleton.none (ih a (by simpa [sameSkeletonB] using h))
+        | some o' => simp [sameSkeletonB] at h
+      | some o => cases y with
+        | none => simp [sameSkeletonB] at h
+        | some o' =>
+          simp only [sameSkeletonB, Bool.and_eq_true, decide_eq_true_eq] at h
+          exact SameSkeleton.some o o' h.1.1 h.1.2 (ih a h.2)
+
+theorem spinFlipB_sound (b a : Config) (h : spinFlipB b a = true) : SpinFlipStep b a := by
+  simp only [spinFlipB, Bool.and_eq_true, decide_eq_true_eq] at h
+  exact ⟨h.1.1, sameSkeletonB_sound _ _ h.1.2, h.2⟩
+
+theorem xorRel_of_sameSkeleton {b a : Slots} (h : SameSkeleton b a) : XorRel b (maskSlots b a) a := by
+  induction h with
+  | nil => exact XorRel.nil
+  | none _ ih => exact XorRel.none ih
+  | some o o' hs _ _ ih =>
+    obtain ⟨hv, _, _, hi, ho⟩ := hs
+    refine XorRel.some o (maskOp o o') o' rfl hv ?_ ?_ ?_ ih
+    · exact (xorBits_cancel o.ins o'.ins hi).symm
+    · exact (xorBits_cancel o.outs o'.outs ho).symm
+    · simp [maskOp, xorBits_length, ho]
+
+/-- **Link-closed flips keep consistency** (shared by cluster / loop / free refresh / RVB spin
+part): on a common skeleton, if the flip mask is a consistent mask configuration then the flipped
+configuration is consistent. -/
+theorem linkClosed_flip_consistent_aux (b a : Config) (hc : Consistent b) (h : SpinFlipStep b a) :
+    Consistent a := by
+  obtain ⟨hlen, hs, hm⟩ := h
+  have := propagate_xor (xorRel_of_sameSkeleton hs) hc hm
+  simp only [maskConfig] at this
+  rw [xorBits_cancel b.state a.state hlen] at this
+  exact this
+
+theorem sameSkeleton_length {b a : Slots} (h : SameSkeleton b a) : a.length = b.length := by
+  induction h <;> simp_all
+
+/-- spin-only updates keep which bond sits at which position -/
+theorem sameSkeleton_bondAt {b a : Slots} (h : SameSkeleton b a) (st st' : List Bool) (p : Nat) :
+    bondAt ⟨st', a⟩ p = bondAt ⟨st, b⟩ p := by
+  induction h generalizing p with
+  | nil => simp [bondAt]
+  | none _ ih => cases p with
+    | zero => simp [bondAt]
+    | succ p => simpa [bondAt] using ih p
+  | some o o' hs _ _ ih => cases p with
+    | zero => simp [bondAt, hs.2.1]
+    | succ p => simpa [bondAt] using ih p
+
+/-- structural part of legality survives a spin flip; the weight is the hypothesis -/
+theorem sameSkeleton_legal (H : Ham) {b a : Slots} (h : SameSkeleton b a)
+    (hw : FlipKeepsWeight H b a) (hl : ∀ o, some o ∈ b → o.LegalFor H) :
+    ∀ o, some o ∈ a → o.LegalFor H := by
+  induction h with
+  | nil => intro o ho; simp at ho
+  | none _ ih =>
+    intro o ho
+    simp only [List.mem_cons] at ho
+    rcases ho with ho | ho
+    · cases ho
+    · exact ih (by simpa [FlipKeepsWeight] using hw) (fun o ho => hl o (List.mem_cons_of_mem _ ho)) o ho
+  | some o1 o2 hs ht _ ih =>
+    intro o ho
+    simp only [FlipKeepsWeight] at hw
+    simp only [List.mem_cons] at ho
+    rcases ho with ho | ho
+    · cases ho
+      have hl1 := hl o1 (List.mem_cons_self ..)
+      rcases hw.1 with he | hpos
+      · rw [he]; exact hl1
+      · obtain ⟨hv, hb, hcst, hi, hou⟩ := hs
+        obtain ⟨l1, l2, l3, l4, l5, l6⟩ := hl1
+        have htag : o2.tagDiag = true ↔ o2.ins = o2.outs := by
+          rcases ht with he | he
+          · rw [he]; exact l4
+          · rw [he]; simp
+        refine ⟨by rw [hb]; exact l1, by rw [hv, hb]; exact l2, by rw [hcst, hb]; exact l3, htag, ?_, hpos⟩
+        refine ⟨by rw [hi, hv]; exact l5.1, by rw [hou, hv]; exact l5.2.1, by rw [hv]; exact l5.2.2.1, ?_⟩
+        intro h; exact (htag.mp h).symm
+    · exact ih hw.2 (fun o ho => hl o (List.mem_cons_of_mem _ ho)) o ho
+
+theorem flipKeepsWeightB_sound (H : Ham) (b a : Slots) (h : flipKeepsWeightB H b a = true) :
+    FlipKeepsWeight H b a := by
+  induction b generalizing a with
+  | nil => cases a <;> simp [FlipKeepsWeight]
+  | cons x b ih =>
+    cases a with
+    | nil => cases x <;> simp [FlipKeepsWeight]
+    | cons y a =>
+      cases x with
+      | none => cases y <;> simpa [FlipKeepsWeight] using ih a (by simpa [flipKeepsWeightB] using h)
+      | some o => cases y with
+        | none => simpa [FlipKeepsWeight] using ih a (by simpa [flipKeepsWeightB] using h)
+        | some o' =>
+          simp only [flipKeepsWeightB, Bool.and_eq_true, Bool.or_eq_true, decide_eq_true_eq] at h
+          exact ⟨h.1, ih a h.2⟩
 
 end Qmc
